@@ -7,6 +7,8 @@
                                                                  PowerFull layouts, unit filters, life-cycle history, VankaFactorError
   amavanka  spec/PrecondVanka.tla  -> harness/c08x_amavanka.cpp  Solver::AmaVanka (BCSR saddle point, deduced macros, omega, steps, skip_singular):
                                                                  assembled matrix entry-wise + apply
+            the mock-flavour cases also -> harness/c08x_uzawa_global.cpp  the Global::Matrix / Global::Filter specialisation of UzawaPrecond
+                                                                 (MPI build, one process)
   schwarz   spec/PrecondSchwarz.tla -> harness/c08x_schwarz.cpp  Solver::SchwarzPrecond on 1..3 (thorough: 4) MPI ranks, every patch decomposition
 spec/DyadicLA.tla holds the exact dyadic linear algebra incl. THE inverse of the local matrices (law M X = X M = I checked by TLC)
 and the exact-domain test for Math::invert_matrix.  All expected values are computed by TLC; the replayers compare with ==.
@@ -19,7 +21,7 @@ import concurrent.futures as cf
 import vlib
 
 STD = {"uzawa": "c08x_uzawa", "vanka": "c08x_vanka", "amavanka": "c08x_amavanka"}
-MPI = {"schwarz": "c08x_schwarz"}
+MPI = {"schwarz": "c08x_schwarz", "uzawa_global": "c08x_uzawa_global"}
 MODULE = {"uzawa": "PrecondUzawa", "vanka": "PrecondVanka", "amavanka": "PrecondVanka", "schwarz": "PrecondSchwarz"}
 MPIRUN = ["mpirun", "--allow-run-as-root", "--oversubscribe", "--bind-to", "none", "--mca", "mpi_yield_when_idle", "1", "-np"]
 UZ_INV = "Linearity FilterLaw BlockLaw FullIsSaddleInverse LifeOK Emit"
@@ -40,10 +42,10 @@ def cfg_uzawa(sizes, types, flavs, filts, autos=(True,), fails=("none",), pals=(
             % (st(sizes), st(types), st(flavs), st(filts), st(autos), st(fails), st(pals), nz[0], nz[1], mode, maxhist, UZ_INV))
 
 
-def cfg_vanka(layouts, nvs, nps, kinds, oms, iters, filts, pals=(1,), apat="all", nz=(0, 99)):
+def cfg_vanka(layouts, nvs, nps, kinds, oms, iters, filts, pals=(1,), apat="all", nz=(0, 99), zdp=False):
     return ("SPECIFICATION Spec\nCONSTANTS Layouts = %s NVs = %s NPs = %s Kinds = %s Oms = %s Iters = %s FiltSel = %s Pals = %s APat = \"%s\" "
-            "MinNz = %d MaxNz = %d\nINVARIANTS %s\nCHECK_DEADLOCK FALSE\n"
-            % (st(layouts), st(nvs), st(nps), st(kinds), st(oms), st(iters), st(filts), st(pals), apat, nz[0], nz[1], VK_INV))
+            "MinNz = %d MaxNz = %d ZDP = %s\nINVARIANTS %s\nCHECK_DEADLOCK FALSE\n"
+            % (st(layouts), st(nvs), st(nps), st(kinds), st(oms), st(iters), st(filts), st(pals), apat, nz[0], nz[1], "TRUE" if zdp else "FALSE", VK_INV))
 
 
 def cfg_schwarz(nr, nd, flavs, failrs, igns, filts):
@@ -58,23 +60,31 @@ def jobs(tier):
     if tier == "thorough":
         # Uzawa: every pattern pair of B and D for n, m <= 2 with every type, filter, auto_init_s; n = 3 windows; all flavours
         for t in ALLT:
-            j.append(("uzawa", "uz 22 mock %s" % t, cfg_uzawa([22], [t], ["mock"], ["none", "vmean", "unit"], (True, False)), 9))
+            j.append(("uzawa", "uz 22 mock %s" % t, cfg_uzawa([22], [t], ["mock"], ["none", "vmean", "unit"], (True, False)), 7))
             j.append(("uzawa", "uz small mock %s" % t, cfg_uzawa([11, 21, 12], [t], ["mock"], F5, (True, False), pals=(1, 2)), 3))
-        j.append(("uzawa", "uz 22 feat", cfg_uzawa([22], ALLT, ["feat"], ["none", "vmean", "mean"], nz=(0, 5)), 6))
-        j.append(("uzawa", "uz small feat", cfg_uzawa([11, 21, 12], ALLT, ["feat"], F5, pals=(1, 2, 3)), 3))
+        j.append(("uzawa", "uz 22 feat", cfg_uzawa([22], ALLT, ["feat"], ["none", "vmean", "mean"], nz=(0, 5)), 8))
+        j.append(("uzawa", "uz small feat", cfg_uzawa([11, 21, 12], ALLT, ["feat"], F5, pals=(1, 2, 3)), 6))
         j.append(("uzawa", "uz inv/schur", cfg_uzawa([11, 21, 12, 22], ALLT, ["inv", "schur"], ["none"], pals=(1, 2)), 8))
-        j.append(("uzawa", "uz 31 32", cfg_uzawa([31, 32], ALLT, ["mock", "feat", "schur"], ["none", "vmean"], nz=(4, 5)), 8))
+        j.append(("uzawa", "uz 31", cfg_uzawa([31], ALLT, ["mock", "feat", "schur"], ["none", "vmean"]), 5))
+        j.append(("uzawa", "uz 32", cfg_uzawa([32], ALLT, ["mock", "feat"], ["none", "vmean"], nz=(3, 3)), 8))
         j.append(("uzawa", "uz fail", cfg_uzawa([11, 21, 22], ALLT, ["mock"], ["none"], (True, False), ("A", "S"), nz=(0, 4)), 3))
-        j.append(("uzawa", "uz hist auto", cfg_uzawa([21], ["lower", "full"], ["mock"], ["none"], (True,), nz=(4, 4), mode="hist", maxhist=6), 4))
-        j.append(("uzawa", "uz hist manual", cfg_uzawa([11], ["upper", "full"], ["mock"], ["none"], (False,), nz=(2, 2), mode="hist", maxhist=6), 6))
-        # Vanka: n = 2 every pattern, n = 3 windows; four layouts; omega, iterations, filters
+        j.append(("uzawa", "uz hist auto", cfg_uzawa([21], ["lower", "full"], ["mock"], ["none"], (True,), nz=(4, 4), mode="hist", maxhist=6), 2))
+        j.append(("uzawa", "uz hist manual", cfg_uzawa([11], ["upper", "full"], ["mock"], ["none"], (False,), nz=(2, 2), mode="hist", maxhist=6), 3))
+        # Vanka: all eight types on all four layouts; n = 2: every pattern of B, D up to 5 entries with every node coupling of A,
+        # denser patterns with filters; n = 3 windows; nodal full on one pressure dof; additive with full coverage
         for lay in ("csr", "bcsr", "pdiag", "pfull"):
-            j.append(("vanka", "vk %s n2 a" % lay, cfg_vanka([lay], [2], [1, 2], ALLK, [1, 3], [1, 2], ["none"], nz=(0, 5)), 10))
-            j.append(("vanka", "vk %s n2 b" % lay, cfg_vanka([lay], [2], [2], ALLK, [2], [2], ["vp", "v"], nz=(6, 8), pals=(2,)), 10))
-            j.append(("vanka", "vk %s n3" % lay, cfg_vanka([lay], [3], [2], ALLK, [2], [2], ["none", "p"], apat="diag", nz=(4, 5)), 10))
-        j.append(("vanka", "vk csr n1", cfg_vanka(["csr", "bcsr", "pfull"], [1], [1, 2], ALLK, [1, 2, 3], [1, 2, 3], ["none", "vp"], pals=(1, 2, 3)), 3))
-        j.append(("amavanka", "ama n<=2", cfg_vanka(["bcsr"], [1, 2], [1, 2], ["ama", "amas"], [1, 2, 3], [1, 2, 3], ["none", "vp", "v"], pals=(1, 2)), 8))
-        j.append(("amavanka", "ama n3", cfg_vanka(["bcsr"], [3], [2], ["ama", "amas"], [1, 3], [1, 2], ["none", "p"], apat="diag", nz=(4, 6)), 8))
+            j.append(("vanka", "vk %s n2 a" % lay, cfg_vanka([lay], [2], [1, 2], ALLK, [3], [1, 2], ["none"], nz=(0, 5)), 10))
+            j.append(("vanka", "vk %s n2 b" % lay, cfg_vanka([lay], [2], [2], ALLK, [2], [2], ["vp", "v"], apat="diag", nz=(6, 8), pals=(1, 2, 3)), 4))
+            j.append(("vanka", "vk %s n3" % lay, cfg_vanka([lay], [3], [2], ALLK, [2], [2], ["none", "p"], apat="diag", nz=((5, 5) if lay in ("csr", "bcsr") else (4, 4))), 9))
+        j.append(("vanka", "vk n1", cfg_vanka(["csr", "bcsr", "pfull"], [1], [1, 2], ALLK, [1, 2, 3], [1, 2, 3], ["none", "vp"], pals=(1, 2, 3)), 3))
+        j.append(("vanka", "vk nodal m1", cfg_vanka(["csr", "bcsr", "pdiag", "pfull"], [2, 3], [1], ["nfm", "nfa", "ndm", "nda"], [1, 2], [1, 2], ["none", "v"], pals=(1, 2, 3), apat="diag"), 6))
+        j.append(("vanka", "vk nodal m1 coupled", cfg_vanka(["csr", "pfull"], [3], [1], ["nfm", "nfa"], [3], [2], ["none"], pals=(1, 2), apat="coupled", nz=(3, 6)), 6))
+        j.append(("vanka", "vk additive", cfg_vanka(["csr", "bcsr", "pdiag", "pfull"], [2], [2], ["nda", "nfa", "bda", "bfa"], [1, 2], [1, 3], ["none", "p"], pals=(1, 2), apat="diag", nz=(5, 8)), 7))
+        j.append(("amavanka", "ama n<=2", cfg_vanka(["bcsr"], [1, 2], [1, 2], ["ama", "amas"], [1, 2, 3], [1, 2, 3], ["none", "vp", "v"], pals=(1, 2, 3)), 8))
+        j.append(("amavanka", "ama n2 coupled", cfg_vanka(["bcsr"], [2], [2], ["ama", "amas"], [3], [2], ["none"], pals=(1, 2, 3), apat="coupled", nz=(4, 8)), 5))
+        j.append(("amavanka", "ama n3", cfg_vanka(["bcsr"], [3], [2], ["ama", "amas"], [1, 3], [1, 2], ["none", "p"], apat="diag", nz=(5, 5)), 9))
+        # regular local Schur complements with a zero diagonal entry (known finding C08x-invert-matrix-diagonal-pivoting)
+        j.append(("vanka", "vk zero diagonal pivot", cfg_vanka(["csr", "bcsr"], [2], [2], ["bfm", "bdm", "bfa"], [1], [1], ["none"], pals=(1, 2, 3), apat="diag", nz=(4, 8), zdp=True), 2))
         for nr, nd in ((1, 3), (2, 3), (3, 3), (4, 2), (2, 4)):
             j.append(("schwarz", "sw nr=%d nd=%d" % (nr, nd), cfg_schwarz(nr, nd, ["mock", "jacobi"], sorted({99, 0, nr - 1}), (True, False), (0, 1)), 2))
     else:
@@ -87,12 +97,14 @@ def jobs(tier):
         j.append(("uzawa", "uz hist auto", cfg_uzawa([11], ["full"], ["mock"], ["none"], (True,), nz=(2, 2), mode="hist", maxhist=5), 1))
         j.append(("uzawa", "uz hist manual", cfg_uzawa([11], ["lower"], ["mock"], ["none"], (False,), nz=(2, 2), mode="hist", maxhist=5), 2))
         # every VankaType on two layouts at least (thorough: on all four)
-        j.append(("vanka", "vk csr", cfg_vanka(["csr"], [2], [2], ["ndm", "nfm", "bda", "bfa"], [3], [2], ["none"], nz=(4, 4)), 6))
-        j.append(("vanka", "vk pdiag", cfg_vanka(["pdiag"], [2], [2], ["nda", "nfa", "bdm", "bfm"], [1], [2], ["none"], nz=(4, 4)), 7))
+        j.append(("vanka", "vk csr", cfg_vanka(["csr"], [2], [2], ["ndm", "nfm", "bda", "bfa"], [3], [2], ["none"], pals=(1, 2), apat="coupled", nz=(4, 5)), 6))
+        j.append(("vanka", "vk pdiag", cfg_vanka(["pdiag"], [2], [1, 2], ["nda", "nfa", "bdm", "bfm"], [1], [2], ["none"], apat="diag", nz=(3, 5)), 5))
         j.append(("vanka", "vk bcsr", cfg_vanka(["bcsr"], [2], [1, 2], ALLK, [2], [2], ["vp"], apat="diag", nz=(3, 4)), 5))
-        j.append(("vanka", "vk pfull", cfg_vanka(["pfull"], [2], [2], ALLK, [3], [1], ["v"], apat="diag", nz=(4, 5)), 3))
+        j.append(("vanka", "vk pfull", cfg_vanka(["pfull"], [2], [2], ALLK, [3], [1], ["v"], apat="diag", nz=(4, 5)), 4))
+        j.append(("vanka", "vk nodal m1", cfg_vanka(["csr", "pfull"], [2, 3], [1], ["nfm", "nfa", "nda"], [2], [2], ["none"], pals=(1, 2), apat="diag"), 4))
         j.append(("vanka", "vk csr n3", cfg_vanka(["csr"], [3], [2], ["bfm", "nda"], [1], [1], ["p"], apat="diag", nz=(5, 5)), 6))
-        j.append(("amavanka", "ama", cfg_vanka(["bcsr"], [1, 2], [1, 2], ["ama", "amas"], [1, 3], [1, 2], ["none", "vp"], nz=(0, 5)), 4))
+        j.append(("vanka", "vk additive", cfg_vanka(["csr", "pdiag"], [2], [2], ["nda", "nfa", "bda", "bfa"], [2], [2], ["none"], apat="diag", nz=(5, 6)), 5))
+        j.append(("amavanka", "ama", cfg_vanka(["bcsr"], [1, 2], [1, 2], ["ama", "amas"], [3], [1, 2], ["none", "vp"], pals=(1, 2, 3), nz=(0, 8)), 6))
         j.append(("schwarz", "sw nr=1", cfg_schwarz(1, 3, ["mock", "jacobi"], [99, 0], (True, False), (0, 1)), 1))
         j.append(("schwarz", "sw nr=2", cfg_schwarz(2, 3, ["mock", "jacobi"], [99, 1], (True, False), (0, 1)), 1))
         j.append(("schwarz", "sw nr=3", cfg_schwarz(3, 3, ["mock", "jacobi"], [99, 2], (False,), (0, 1)), 2))
@@ -105,11 +117,15 @@ def sig(c, r):
     part = c.get("_part", "")
     clause = r.get("clause", "outcome_" + str(r.get("outcome", "error")))
     s = {"part": part, "clause": clause, "outcome": r.get("outcome", "mismatch")}
-    if part == "uzawa":
+    if part == "uzawa_global":
+        why = r.get("why") or ""
+        m = re.match(r"rank \d+: (\S+)", why)
+        s.update({"typ": c["typ"], "fp": c["fp"], "auto": c["auto"], "fail": c["fail"], "clause": m.group(1) if m else clause})
+    elif part == "uzawa":
         s.update({"typ": c["typ"], "flav": c["flav"], "fp": c["fp"], "auto": c["auto"], "fail": c["fail"], "stale": bool(r.get("stale", False))})
     elif part in ("vanka", "amavanka"):
         s.update({"lay": c["lay"], "kind": c["kind"], "additive": c["kind"] in ("nda", "nfa", "bda", "bfa"),
-                  "uncovered": any(x == 0 for x in c["count"]), "filtered": c["fsel"] != "none"})
+                  "uncovered": any(x == 0 for x in c["count"]), "filtered": c["fsel"] != "none", "zdp": bool(c.get("zdp", False))})
     elif part == "schwarz":
         why = r.get("why") or ""
         m = re.match(r"rank \d+: (\S+)", why)
@@ -122,7 +138,7 @@ def sig(c, r):
 
 def key(c):
     part = c.get("_part", "")
-    if part == "uzawa":
+    if part in ("uzawa", "uzawa_global"):
         return json.dumps(["uz", c["n"], c["m"], c["typ"], c["flav"], c["fsel"], c["auto"], c["fail"], c["patB"], c["patD"], c["B1"], [s["op"] for s in c["steps"]]])
     if part in ("vanka", "amavanka"):
         return json.dumps(["vk", c["lay"], c["n"], c["m"], c["kind"], c["om"], c["iters"], c["fsel"], c["patA"], c["patB"], c["patD"], c["M1"]])
@@ -131,7 +147,7 @@ def key(c):
 
 def nontrivial(c):
     part = c.get("_part", "")
-    if part == "uzawa":
+    if part in ("uzawa", "uzawa_global"):
         return sum(map(sum, c["patB"])) > 0 and sum(map(sum, c["patD"])) > 0
     if part in ("vanka", "amavanka"):
         return len(c["blocks"]) >= 1 and any(len(b["idx"]) >= 2 for b in c["blocks"])
@@ -171,6 +187,19 @@ def _replay(chk, part, bins, cases):
     else:
         res = vlib.run_cases(bins[part], cases, tmo=30, shards=min(4, vlib.NCPU))
         vlib.judge_results(chk, cases, res, sig, keyf=key, harness=STD[part], nontrivial=nontrivial)
+        if part == "uzawa":
+            # the same predictions hold for the Global::Matrix specialisation on one process
+            sub = []
+            for c in cases:
+                if c["flav"] != "feat":
+                    d = dict(c)
+                    d["nr"] = 1
+                    d["_part"] = "uzawa_global"
+                    sub.append(d)
+            if sub:
+                res = vlib.run_cases(bins["uzawa_global"], sub, tmo=30, max_abnormal=6, shards=2, wrapper=MPIRUN + ["1"])
+                vlib.judge_results(chk, sub, res, sig, keyf=lambda c: "g" + key(c), harness=MPI["uzawa_global"], nontrivial=nontrivial)
+                chk.extra["cases_uzawa_global"] = chk.extra.get("cases_uzawa_global", 0) + len(sub)
 
 
 def run_ext(chk):
@@ -260,7 +289,7 @@ def run_ext(chk):
         "and AmaVanka without skip_singular are generated with regular local systems only; singular local systems only where evidently singular "
         "(zero row/column): diag variants must throw VankaFactorError, AmaVanka with skip_singular must skip the macro",
         "C08x: Vanka needs at least one stored entry in D (and in B for block variants / BCSR); AmaVanka needs every dof in a macro (XASSERT)",
-        "C08x: UzawaPrecond for LAFEM containers (the Global::Matrix specialisation is not replayed); SchwarzPrecond with Global::Filter<UnitFilter>; "
+        "C08x: UzawaPrecond for LAFEM containers and - mock inner solvers, one process - its Global::Matrix specialisation; SchwarzPrecond with Global::Filter<UnitFilter>; "
         "AmaVanka on SaddlePointMatrix<BCSR> with deduced macros only (no TupleMatrix / scalar matrices with pushed macros, no VoxelAmaVanka)"]
     return sum(percase.values())
 
@@ -275,7 +304,7 @@ def replay(obj):
             continue
         c = rp["case"]
         part = c.get("_part")
-        if part == "schwarz":
+        if part in MPI:
             r, = vlib.run_cases(bins[part], [c], tmo=30, shards=1, wrapper=MPIRUN + [str(c["nr"])])
         else:
             r, = vlib.run_cases(bins[part], [c], tmo=30, shards=1)
